@@ -13,6 +13,7 @@ import (
 	"github.com/ipld/go-ipld-prime/traversal/selector"
 	"github.com/ipld/go-ipld-prime/zzverif/ref/gen"
 	"github.com/ipld/go-ipld-prime/zzverif/ref/nodecheck"
+	"github.com/ipld/go-ipld-prime/zzverif/ref/refsel"
 	"github.com/ipld/go-ipld-prime/zzverif/ref/refval"
 	"github.com/ipld/go-ipld-prime/zzverif/ref/selgen"
 )
@@ -176,6 +177,75 @@ func HStream() {
 			want := append([]byte{0x40 + byte(len(content))}, content...)
 			nd.Assert(nd.EqBytes(b1.Bytes(), want), "encoding sees the whole content every time")
 		}
+	}
+	nd.Reach("end")
+}
+
+// HSubsetReread: the node a subset matcher hands to the visitor (a slice of a bytes or string
+// node) is itself a node: every read of it, through every accessor, any number of times, returns
+// the selected range.
+func HSubsetReread() {
+	n0 := nd.Param("N", 6)
+	content := nd.Bytes("c", n0)
+	// concrete bounds (every pair, negative ones counting from the end): the slice's extent is a
+	// matter of C07; here it fixes which bytes every later read must return
+	from, to := int64(nd.Choose("from", 2*n0+1)-n0), int64(nd.Choose("to", 2*n0+1)-n0)
+	nd.Assume(to < 0 || from <= to) // what a valid selector document may say
+	ok, lo, hi := refsel.SliceBounds(from, to, int64(n0))
+	var n datamodel.Node
+	switch nd.Choose("how", 3) {
+	case 0:
+		n = basicnode.NewBytes(content)
+	case 1:
+		n = basicnode.NewBytesFromReader(bytes.NewReader(content))
+	case 2:
+		n = basicnode.NewString(string(content))
+	}
+	sel := compile(&selgen.Sel{Op: '.', Subset: true, From: from, To: to})
+	var m datamodel.Node
+	err := traversal.WalkMatching(n, sel, func(p traversal.Progress, x datamodel.Node) error {
+		m = x
+		return nil
+	})
+	nd.Assert(err == nil && (m != nil) == ok, "the subset matcher matches iff the range selects something")
+	if m == nil || !ok {
+		nd.Reach("nomatch")
+		return
+	}
+	want := content[lo:hi]
+	for i := 0; i < nd.Param("READS", 3); i++ {
+		if m.Kind() == datamodel.Kind_String {
+			s, err := m.AsString()
+			nd.Assert(err == nil && s == string(want), "AsString of the matched slice returns the selected range every time")
+			continue
+		}
+		lb, large := m.(datamodel.LargeBytesNode)
+		switch nd.Choose("read", 3) {
+		case 0:
+			b, err := m.AsBytes()
+			nd.Assert(err == nil && nd.EqBytes(b, want), "AsBytes of the matched slice returns the selected range every time")
+		case 1:
+			if large {
+				rs, err := lb.AsLargeBytes()
+				nd.Assert(err == nil, "AsLargeBytes")
+				if err == nil {
+					var buf bytes.Buffer
+					buf.ReadFrom(rs)
+					nd.Assert(nd.EqBytes(buf.Bytes(), want), "AsLargeBytes of the matched slice reads the selected range every time")
+				}
+			}
+		case 2:
+			if large {
+				if rs, err := lb.AsLargeBytes(); err == nil {
+					rs.Read(make([]byte, 1)) // partial read, abandoned
+				}
+			}
+		}
+	}
+	// the node matched against is untouched
+	if n.Kind() == datamodel.Kind_Bytes {
+		b, err := n.AsBytes()
+		nd.Assert(err == nil && nd.EqBytes(b, content), "the node the slice was taken from still reads whole")
 	}
 	nd.Reach("end")
 }
